@@ -125,6 +125,11 @@ def translate():
 VALUES = ["s1", "µm", 7, 0, 2.5, "°C é", "x y", None]      # non-ASCII text: the spec id is defined over UTF-8 bytes
 
 
+# strings with line structure: RSCF v1 normalises CRLF / CR to LF and nothing else (a trailing line break, form feeds, NEL and the
+# Unicode line/paragraph separators are content)
+LINES = ["two\nlines", "tail\n", "crlf\r\nx", "cr\rx", "ff\x0cx", "vt\x0bx", "ls\u2028x", "ps\u2029", "nel\x85x", "\n", "fs\x1cx"]
+
+
 def gen_pair(rnd, d: Path, fail_at=None):
     """(pipeline nodes, run_space block, cli context dict, files written)."""
     sink = str(d / "sink.txt")
@@ -142,6 +147,8 @@ def gen_pair(rnd, d: Path, fail_at=None):
     if fail_at is not None and fail_at < n:
         bad[fail_at] = "boom"
     block1 = {"mode": "by_position", "context": {"v": [rnd.choice(VALUES[:5]) for _ in range(n)], "bad": bad}}
+    if rnd.random() < 0.3:
+        block1["context"]["v"] = [rnd.choice(LINES + VALUES[:5]) for _ in range(n)]
     blocks = [block1]
     cli_ctx = {}
     files = {}
@@ -222,6 +229,8 @@ def to_j_utf8(v):
         return {"o": [[str(k), to_j_utf8(x)] for k, x in v.items()]}
     if isinstance(v, (list, tuple)):
         return {"a": [to_j_utf8(x) for x in v]}
+    if isinstance(v, str):
+        v = v.replace("\r\n", "\n").replace("\r", "\n")        # "normalize \n" (run_space_lifecycle.rst)
     return {"t": json.dumps(v, ensure_ascii=False)}
 
 
